@@ -201,7 +201,10 @@ def _directed(ctx, rep):
     fields = [{"id": 2, "name": "f", "type": "double", "required": False},
               {"id": 7, "name": "g", "type": "float", "required": False},
               {"id": 3, "name": "s", "type": "string", "required": False},
-              {"id": 5, "name": "t", "type": "timestamp", "required": False}]
+              {"id": 5, "name": "t", "type": "timestamp", "required": False},
+              {"id": 4, "name": "d", "type": "date", "required": False},
+              {"id": 1, "name": "i", "type": "long", "required": False},
+              {"id": 9, "name": "y", "type": "binary", "required": False}]
     L = "customer-0123456789"
     T0 = dt.datetime(2020, 1, 1, 12, 0, 0)
     cases = [
@@ -211,6 +214,15 @@ def _directed(ctx, rep):
         ([{"s": L + "-a"}, {"s": L + "-m"}], "s", "between", (L + "-c", L + "-z")),
         ([{"s": L + "-a"}, {"s": L + "-m"}], "s", "in", [L + "-m"]),
         ([{"s": "名" * 20 + "a"}, {"s": "名" * 20 + "z"}], "s", ">=", "名" * 20 + "y"),
+        # a date column filtered with a datetime literal that has a time of day (Arrow widens the column; bounds must not narrow the literal)
+        ([{"d": dt.date(2024, 1, 1)}, {"d": dt.date(2024, 1, 1)}], "d", "<", dt.datetime(2024, 1, 1, 12, 0)),
+        ([{"d": dt.date(2024, 2, 10)}], "d", "!=", dt.datetime(2024, 2, 10, 8, 30)),
+        ([{"d": dt.date(2024, 2, 10)}, {"d": dt.date(2024, 2, 11)}], "d", "<=", dt.datetime(2024, 2, 10, 8, 30)),
+        # a column WITHOUT bounds (float file holding a NaN; binary) next to columns that have bounds
+        ([{"i": 1, "f": 1.0}, {"i": 2, "f": NAN}, {"i": 3, "f": 2.0}], "f", ">", 0.0),
+        ([{"i": 1, "f": 1.0}, {"i": 2, "f": NAN}, {"i": 3, "f": 2.0}], "f", "is_not_null", True),
+        ([{"i": 1, "y": b"a"}, {"i": 2, "y": b"b"}], "y", "is_not_null", True),
+        ([{"i": 1, "y": b"a"}, {"i": 2, "y": b"b"}], "y", "==", b"b"),
         # sub-millisecond timestamps
         ([{"t": T0.replace(microsecond=100)}, {"t": T0.replace(microsecond=900)}], "t", ">", T0.replace(microsecond=500)),
         ([{"t": T0.replace(microsecond=100)}, {"t": T0.replace(microsecond=900)}], "t", "==", T0.replace(microsecond=900)),
@@ -225,7 +237,7 @@ def _directed(ctx, rep):
             t = create_table(path, Schema(schema_id=1, fields=fields))
             t.append_records(rows)
             t.append_records([{"f": 9.0, "g": 9.0}])
-            flt = {col: (op, val)}
+            flt = {col: ((op, val) if op not in ("is_null", "is_not_null") else (op, True))}
             F.prune_files_by_bounds = lambda data_files, expressions, schema: data_files
             try:
                 unpruned = t.scan(filter=flt)
@@ -335,11 +347,11 @@ def _big_files(ctx, rep):
                 ids.reverse()
             elif order == "zigzag":
                 ids = [x if (x // 1000) % 2 == 0 else (x // 1000) * 1000 + 999 - x % 1000 for x in ids]
-            t.append_records([{"i": x, "f": -float(x), "s": f"k{x:05d}"} for x in ids])
+            t.append_records([{"i": x, "f": (NAN if (order == "zigzag" and x == 1500) else -float(x)), "s": f"k{x:05d}"} for x in ids])
             t.append_records([{"i": n + 10, "f": 1.0, "s": "zz"}])
             for col, mk in (("i", lambda x: x), ("f", lambda x: -float(x)), ("s", lambda x: f"k{x:05d}")):
                 for x in (0, 1, 998, 999, 1000, 1001, 1999, 2000, n - 1, n):
-                    for op in ("==", ">", ">=", "<", "<="):
+                    for op in ("==", ">", ">=", "<", "<=", "!="):
                         flt = {col: (op, mk(x))}
                         F.prune_files_by_bounds = lambda data_files, expressions, schema: data_files
                         try:
@@ -353,6 +365,24 @@ def _big_files(ctx, rep):
                             rep.violate("C13:pruned-differs-from-unpruned", f"{n}-row file ({order}): {flt} → {len(pruned)} rows with pruning, "
                                         f"{len(unpruned)} without", {"kind": "big-file", "rows": n, "order": order, "filter": repr(flt)})
             shutil.rmtree(path, ignore_errors=True)
+        # a NaN in ONE batch of a large file: no bounds for that column at all (bounds of the other batches do not cover its batch)
+        path = os.path.join(base, "bnan")
+        t = create_table(path, Schema(schema_id=1, fields=fields))
+        t.append_records([{"i": k, "f": (NAN if k == 1500 else (50.0 if k == 1501 else 4.0)), "s": "c"} for k in range(2500)])
+        t.append_records([{"i": 9000, "f": 4.0, "s": "c"}])
+        for flt in ({"f": ("!=", 4.0)}, {"f": (">=", 50.0)}, {"f": ("==", 50.0)}, {"f": (">", 6.0)}, {"f": ("in", [50.0])}):
+            F.prune_files_by_bounds = lambda data_files, expressions, schema: data_files
+            try:
+                unpruned = t.scan(filter=flt, columns=["i"])
+            finally:
+                F.prune_files_by_bounds = orig
+            pruned = t.scan(filter=flt, columns=["i"])
+            rep.evaluations += 1
+            rep.nontrivial(["big-nan", repr(flt)])
+            if sorted(r["i"] for r in pruned) != sorted(r["i"] for r in unpruned):
+                rep.violate("C13:pruned-differs-from-unpruned", f"2500-row file with one NaN in its second thousand: {flt} → {len(pruned)} rows with pruning, "
+                            f"{len(unpruned)} without", {"kind": "big-file-nan", "filter": repr(flt)})
+        shutil.rmtree(path, ignore_errors=True)
     finally:
         F.prune_files_by_bounds = orig
         shutil.rmtree(base, ignore_errors=True)
